@@ -689,7 +689,7 @@ def items(ctx):
             # turn) for the longer lists
             if len(shape) <= 1:
                 firsts = range(len(FIRSTS))
-            elif len(shape) == 2 or (n + seed) % 2 == 0:
+            elif len(shape) == 2 or (n + seed) % 4 == 0:
                 firsts = [(n + seed + eight) % len(FIRSTS)]
             else:
                 firsts = []
@@ -805,7 +805,7 @@ def run(ctx):
         "object has to give what a fresh object gives for the image now in "
         "the terminal; the first read runs without busy polls, only the "
         "second one is explored (busy deviations <= 1 / 0); A2 for 3 "
-        "categories covers every second list"]
+        "categories covers every fourth list"]
     return res
 
 
